@@ -32,6 +32,18 @@ Idioms accepted in _store (anything else stops the rule with an analysis error):
     `T = os.path.join(D, <constant>)`; D must be the same attribute chain as the
     temp file's directory.
 
+Spelling-independence (helpers in _kit_c13.py): the anchored methods are looked at with helper methods that
+inline.py had to leave as calls expanded where that is still sound (call in tail position: any helper shape; top-level
+statement call: returns become "continue with the rest of the caller"); paths are resolved through locals, read-only
+single-return properties and module/class string constants (os.path.join(D, N), D + "/" + N, f"{D}/N"); the dict that is
+serialised is evaluated per path of the path model (literal, dict(...), d[k] = v under if/else, conditional expressions,
+update/setdefault/del/pop, default-then-overwrite), and its values are judged per arm of a conditional expression under
+the decisions of the path; reads of the loaded object are d[k] / d.get(k) / d.pop(k) directly or through locals; field
+stores include the parallel form `self.a, self.b = x, y`; receivers and the lock are followed through local aliases;
+callbacks may be the bound method, a lambda / local def / functools.partial that only calls it; callee names are
+resolved through the module's imports (`from tempfile import mkstemp`); statements inside `finally` are located in
+every CFG copy.
+
 Outside the property's fault model (crash points and clean stops), reported as a
 note only: if `_store()` raises (disk full, EIO) after `sequence_number_persisted`
 was advanced, the in-memory bound stays ahead of the file and the next chunk-1
@@ -45,6 +57,10 @@ from ..norm import Normalizer, Poly, NormError
 from .c12 import (
     mcalls, reach_cut, after_normal, must_complete, witness, facts_at, has_fact, fact_matches,
     sym_paths, canon, cmp_nf, _min_over_positive, _window_fields,
+)
+from ._kit_c13 import (
+    qual, deep_resolve, rchain, full_resolve, path_parts, tail_expanded, DictStates, DictVal, arms, truth_under,
+    key_read, key_reads_in, is_verbatim_read, field_assigns, recv_is, callable_target, unexpanded_helper_calls, _single_values, const_str,
 )
 
 R = Rules(
@@ -75,6 +91,7 @@ PERS = "self.sequence_number_persisted"
 CHUNK = "self.sequence_number_chunksize"
 LIMIT = "self.sequence_number_chunksize_limit"
 FLAG = "self.replay_window_persisted"
+WINDOW = "self.recipient_replay_window"
 Q, P, C, L, W = (Poly.atom(x) for x in "qPCLW")
 
 
@@ -100,6 +117,11 @@ def _implied(nf, target, positive=()):
         if m is not None and m >= 0:
             return True
     return False
+
+
+def _locs(cfg, nodes):
+    """every CFG node of the given constructs (a `finally` body has one copy per way of leaving its try)"""
+    return {i for n in nodes for i in cfg.locate(n)}
 
 
 def _self_calls(root, name):
@@ -157,7 +179,7 @@ def b(ctx):
     cfg = cfg_of(fi)
     incs = [n for k, n in stores_to(fi.node, SEQ, nested=False)]
     ctx.floor("stores to sender_sequence_number in new_sequence_number", len(incs), 1)
-    posts = {cfg.loc1(c) for c in _self_calls(fi.node, "post_seqnoincrease")}
+    posts = _locs(cfg, _self_calls(fi.node, "post_seqnoincrease"))
     for n in incs:
         nid = cfg.loc1(n)
         ok = bool(posts) and must_complete(cfg, nid, posts)
@@ -169,7 +191,7 @@ def b(ctx):
     pcfg = cfg_of(pf)
     ctx.prog.func(FSC + "._store")  # anchor: a renamed _store is an analysis error, a missing call a violation
     store_calls = _self_calls(pf.node, "_store")
-    snodes = {pcfg.loc1(c) for c in store_calls}
+    snodes = _locs(pcfg, store_calls)
     for k, n in stores_to(pf.node, PERS, nested=False):
         nid = pcfg.loc1(n)
         ok = must_complete(pcfg, nid, snodes)
@@ -213,25 +235,37 @@ def b(ctx):
     # __init__: counters start from what _load read
     init = ctx.prog.func(FSC + ".__init__")
     icfg = cfg_of(init)
-    loads = {icfg.loc1(c) for c in _self_calls(init.node, "_load")}
+    loads = _locs(icfg, _self_calls(init.node, "_load"))
     ctx.floor("_load() calls in __init__", len(loads), 1)
-    pst = [n for k, n in stores_to(init.node, PERS, nested=False)]
+    fas = field_assigns(init.node)
+    pst = [(v, n) for ch, v, n in fas if ch == PERS]
     ctx.floor("stores to sequence_number_persisted in __init__", len(pst), 1)
-    for n in pst:
-        v = n.value if isinstance(n, ast.Assign) else None
-        ctx.ob("__init__ sets the persisted bound to the loaded sender_sequence_number", v is not None and chain(v) == SEQ, init, n)
+    ctx.need(len(pst) == len(stores_to(init.node, PERS, nested=False)), "__init__ changes sequence_number_persisted other than by plain assignment")
+    single = _single_values(init.node)
+    for v, n in pst:
+        # the value may reach the assignment through locals; each of them must be taken after _load() completed as well
+        e_, fresh = v, True
+        for _ in range(4):
+            if isinstance(e_, ast.Name) and e_.id in single:
+                fresh = fresh and after_normal(icfg, loads, icfg.loc1(writes_to_name(init.node, e_.id)[0]))
+                e_ = single[e_.id]
+            else:
+                break
+        ctx.ob("__init__ sets the persisted bound to the loaded sender_sequence_number", e_ is not None and chain(e_) == SEQ and fresh, init, n)
         ctx.ob("the bound is initialised after _load() completed", after_normal(icfg, loads, icfg.loc1(n)), init, n)
-    ctx.ob("every normal path of __init__ initialises the bound", must_complete(icfg, icfg.entry, {icfg.loc1(n) for n in pst}), init, pst[0])
-    later = [n for k, n in stores_to(init.node, SEQ, nested=False) if any(icfg.loc1(n) in icfg.reach({icfg.loc1(x)}) for x in pst)]
-    ctx.ob("the counter is not changed in __init__ after the bound was taken from it", not later, init, later[0] if later else pst[0])
-    cst = [n for k, n in stores_to(init.node, CHUNK, nested=False)]
+    ctx.ob("every normal path of __init__ initialises the bound", must_complete(icfg, icfg.entry, _locs(icfg, [n for _, n in pst])), init, pst[0][1])
+    later = [n for k, n in stores_to(init.node, SEQ, nested=False) if any(icfg.loc1(n) in icfg.reach({icfg.loc1(x)}) for _, x in pst)]
+    ctx.ob("the counter is not changed in __init__ after the bound was taken from it", not later, init, later[0] if later else pst[0][1])
+    cst = [(v, n) for ch, v, n in fas if ch == CHUNK]
     ctx.floor("stores to sequence_number_chunksize in __init__", len(cst), 1)
+    ctx.need(len(cst) == len(stores_to(init.node, CHUNK, nested=False)), "__init__ changes sequence_number_chunksize other than by plain assignment")
     a_ = init.node.args
     allp = a_.posonlyargs + a_.args
     defaults = dict(zip([x.arg for x in allp[len(allp) - len(a_.defaults):]], a_.defaults))
-    for n in cst:
-        v = n.value if isinstance(n, ast.Assign) else None
-        ok = isinstance(v, ast.Name) and v.id in defaults
+    defaults.update({k.arg: d_ for k, d_ in zip(a_.kwonlyargs, a_.kw_defaults) if d_ is not None})
+    for v, n in cst:
+        v = deep_resolve(init.node, v) if v is not None else None
+        ok = isinstance(v, ast.Name) and v.id in defaults and not writes_to_name(init.node, v.id)
         val = None
         if ok:
             try:
@@ -250,22 +284,46 @@ class _Store:
     pass
 
 
+def _cs(ctx, fi):
+    """resolver of named string constants (module / class level) in the scope of fi"""
+    return lambda x: const_str(ctx.prog, fi, x)
+
+
+def _fn(ctx, short):
+    """anchor function with helper methods called in tail position expanded (see _kit_c13.tail_expanded)"""
+    return tail_expanded(ctx.prog, ctx.prog.func(short))
+
+
 def _kw(call, name, pos=None):
     for k in call.keywords:
         if k.arg == name:
             return k.value
-    if pos is not None and pos < len(call.args):
+    if pos is not None and pos < len(call.args) and not any(isinstance(a, ast.Starred) for a in call.args[: pos + 1]):
         return call.args[pos]
     return None
 
 
-def _stmt_of(cfg, node):
-    return cfg.nodes[cfg.loc1(node)].ast
+def _trace_calls(fnode, e, pred, depth=4):
+    """calls (nodes of the function's own tree) satisfying pred that the value of `e` is computed from: those inside `e`
+    and, through single-assignment locals, those inside the values the names in `e` stand for"""
+    out = []
+    for x in ast.walk(e):
+        if isinstance(x, ast.Call) and pred(x):
+            out.append(x)
+        elif isinstance(x, ast.Name) and isinstance(x.ctx, ast.Load) and depth:
+            ws = writes_to_name(fnode, x.id)
+            v = assigned_value(fnode, x.id)
+            if v is not None and len(ws) == 1:
+                out.extend(_trace_calls(fnode, v, pred, depth - 1))
+    return out
 
 
 def _store_model(ctx):
+    cached = ctx.prog.__dict__.get("_c13_store_model")
+    if cached is not None:
+        return cached
     m = _Store()
-    m.fi = fi = ctx.prog.func(FSC + "._store")
+    m.fi = fi = _fn(ctx, FSC + "._store")
     m.cfg = cfg = cfg_of(fi)
     ctx.need(is_plain_sync(fi), "_store is not a plain function")
     # parent map for `with` containment
@@ -279,7 +337,7 @@ def _store_model(ctx):
     m.creates = []
     for n in walk_no_nested(fi.node):
         if isinstance(n, ast.Assign) and isinstance(n.value, ast.Call):
-            cn = chain(n.value.func)
+            cn = qual(fi, n.value.func)
             if cn == "tempfile.mkstemp":
                 t = n.targets[0]
                 ctx.need(len(n.targets) == 1 and isinstance(t, (ast.Tuple, ast.List)) and len(t.elts) == 2 and all(isinstance(e, ast.Name) for e in t.elts),
@@ -298,13 +356,14 @@ def _store_model(ctx):
                 m.creates.append(n)
     ctx.need(len(m.creates) == 1, "_store creates its temp file by an idiom outside the rule's vocabulary (mkstemp / NamedTemporaryFile)")
     ctx.need(m.fd is None or len(writes_to_name(fi.node, m.fd)) == 1, "the temp file handle is rebound")
+    ctx.need(not isinstance(m.tmpname, ast.Name) or len(writes_to_name(fi.node, m.tmpname.id)) == 1, "the temp file name is rebound")
     # file object opened on the handle
     m.withs = []  # With statements that close the file object on exit
     m.unbuffered = False
     m.openers = []
     if m.fd is not None:
         for c in calls_in(fi.node):
-            if chain(c.func) in ("io.open", "open", "os.fdopen") and c.args and isinstance(c.args[0], ast.Name) and c.args[0].id == m.fd:
+            if qual(fi, c.func) in ("io.open", "open", "os.fdopen") and c.args and isinstance(c.args[0], ast.Name) and c.args[0].id == m.fd:
                 m.openers.append(c)
         ctx.need(len(m.openers) <= 1, "the temp file handle is opened more than once")
         for c in m.openers:
@@ -340,7 +399,7 @@ def _store_model(ctx):
     m.writes, m.flushes, m.fsyncs, m.closes, m.renames = [], [], [], [], []
     m.raw_write = False
     for c in calls_in(fi.node):
-        cn = chain(c.func) or ""
+        cn = qual(fi, c.func) or ""
         if isinstance(c.func, ast.Attribute) and is_f(c.func.value):
             if c.func.attr in ("write", "writelines"):
                 m.writes.append((c, c.args[0] if c.args else None))
@@ -359,6 +418,7 @@ def _store_model(ctx):
             m.closes.append(c)
         elif cn in ("os.replace", "os.rename") and len(c.args) == 2:
             m.renames.append(c)
+    ctx.prog.__dict__["_c13_store_model"] = m
     return m
 
 
@@ -371,45 +431,54 @@ def _inside(m, node, container):
     return False
 
 
-def _payload_dict(ctx, m):
-    """(dict variable name, {key: [(value expr, node)]}) of the object serialised into the file."""
+def _payload(ctx, m):
+    """What _store serialises, decided per path: {key: [(value expr, statement)]} (union over the paths) and
+    m.payload = [(serialising call, path, DictVal)].  The object handed to json.dumps / json.dump is evaluated with the
+    dict model of _kit_c13.DictStates at the serialising statement, so a dict literal, dict(...), d[k] = v under if/else,
+    a conditional expression as value, update()/setdefault() and a default that is overwritten later all give the same
+    contents; values are split into the arms of conditional expressions where they are judged."""
+    if getattr(m, "payload", None) is not None:
+        return m.entries
     fi = m.fi
-    objs = []
+    sites = []
     for c, arg in m.writes:
         if arg is None:
             continue
         if arg is c:  # json.dump(obj, f)
-            objs.append(c.args[0])
+            sites.append(c)
             continue
-        e = resolve_local(fi.node, arg)
-        found = [x for x in ast.walk(e) if isinstance(x, ast.Call) and chain(x.func) == "json.dumps" and x.args]
-        for x in found:
-            objs.append(x.args[0])
-    ctx.need(len(objs) >= 1, "what _store writes is not json.dumps(...)/json.dump(...) of an object the rule can trace")
-    names = {o.id for o in objs if isinstance(o, ast.Name)}
-    ctx.need(len(names) == 1 and all(isinstance(o, ast.Name) for o in objs), "the serialised object is not a single local dict")
-    var = names.pop()
+        sites.extend(_trace_calls(fi.node, arg, lambda x: qual(fi, x.func) == "json.dumps" and bool(x.args)))
+    sites = list({id(c): c for c in sites}.values())
+    ctx.need(len(sites) >= 1, "what _store writes is not json.dumps(...)/json.dump(...) of an object the rule can trace")
+    ds = DictStates(fi, const=lambda x: const_str(ctx.prog, fi, x))
+    payload = []
     entries = {}
-    ws = writes_to_name(fi.node, var)
-    ctx.need(len(ws) == 1 and isinstance(ws[0], ast.Assign) and isinstance(ws[0].value, ast.Dict), "the serialised object is not built from one dict literal")
-    for k, v in zip(ws[0].value.keys, ws[0].value.values):
-        ctx.need(isinstance(k, ast.Constant) and isinstance(k.value, str), "non-constant key in the persisted dict")
-        entries.setdefault(k.value, []).append((v, ws[0]))
-    for kind, n in stores_to(fi.node, var, nested=False):
-        if kind == "assign":
-            continue
-        ctx.need(kind == "setitem" and isinstance(n, ast.Assign) and isinstance(n.targets[0], ast.Subscript) and isinstance(n.targets[0].slice, ast.Constant)
-                 and isinstance(n.targets[0].slice.value, str), "the persisted dict is modified by something other than d[<constant>] = v: %s" % stmt_text(n))
-        entries.setdefault(n.targets[0].slice.value, []).append((n.value, n))
-    return var, entries
+    seen = set()
+    for dc in sites:
+        nid = m.cfg.loc1(dc)
+        # the dict model follows normal flow only: contents put together in a try body that was left by an exception
+        # would be missed, so such a shape is refused
+        ctx.need(not any(nd.kind == "handler" and nid in m.cfg.reach({nd.id}) for nd in m.cfg.nodes),
+                 "the serialising statement of _store can be reached through an exception handler; the rule follows the dict only along normal flow")
+        states = ds.at(nid, dc.args[0])
+        ctx.need(len(states) >= 1, "the serialising statement of _store is on no normal path")
+        for path, dv in states:
+            ctx.need(isinstance(dv, DictVal), "the serialised object is not a dict the rule can follow: %s" % stmt_text(dc.args[0], 60))
+            ctx.need(dv.opaque is None, "the persisted dict is built in a way the rule cannot follow (%s)" % dv.opaque)
+            payload.append((dc, path, dv))
+            for k, (v, n) in dv.entries.items():
+                key = (k, dump(v), id(n))
+                if key not in seen:
+                    seen.add(key)
+                    entries.setdefault(k, []).append((v, n))
+    m.ds, m.payload, m.entries = ds, payload, entries
+    return entries
 
 
-def _join_parts(e):
-    """(directory expr, constant file name) of os.path.join(D, "name"), else None."""
-    b = match("os.path.join($d, $n)", e)
-    if b is not None and isinstance(b["n"], ast.Constant) and isinstance(b["n"].value, str):
-        return b["d"], b["n"].value
-    return None
+def _target_parts(ctx, fi, e):
+    jp = path_parts(ctx.prog, fi, e)
+    ctx.need(jp is not None, "the rename target is not <directory>/<constant name> in a spelling the rule knows (os.path.join(D, N), D + '/' + N, f'{D}/N')")
+    return jp
 
 
 @R.clause("C13.c", "_store: temp file in the target's directory; write, flush, fsync, close, then replace, on every path; next-to-send is sequence_number_persisted")
@@ -418,29 +487,30 @@ def c(ctx):
     fi, cfg = m.fi, m.cfg
     ctx.floor("rename calls in _store", len(m.renames), 1)
     ctx.floor("write calls in _store", len(m.writes), 1)
-    W_ = {cfg.loc1(c) for c, _ in m.writes}
-    FL = {cfg.loc1(c) for c in m.flushes}
-    FS = {cfg.loc1(c) for c in m.fsyncs}
-    CL = {cfg.loc1(c) for c in m.closes}
-    RP = {cfg.loc1(c) for c in m.renames}
-    need_flush = not (m.unbuffered or (m.raw_write and all(chain(c.func) == "os.write" for c, _ in m.writes)))
+    def locs(nodes):
+        # every CFG copy of the statements (a `finally` body exists once per way of leaving the try)
+        return {i for n in nodes for i in cfg.locate(n)}
+
+    W_ = locs(c for c, _ in m.writes)
+    FL = locs(m.flushes)
+    FS = locs(m.fsyncs)
+    CL = locs(m.closes)
+    RP = locs(m.renames)
+    need_flush = not (m.unbuffered or (m.raw_write and all(qual(fi, c.func) == "os.write" for c, _ in m.writes)))
     create = m.creates[0]
-    for r in m.renames:
-        rn = cfg.loc1(r)
+    for r, rn in [(r, rn) for r in m.renames for rn in cfg.locate(r)]:
         src, dst = r.args
-        ctx.ob("the file renamed onto the target is the temp file that was written", same(resolve_local(fi.node, src), m.tmpname) or same(src, m.tmpname), fi, r)
-        jp = _join_parts(resolve_local(fi.node, dst))
-        ctx.need(jp is not None, "the rename target is not os.path.join(<dir>, <constant>)")
-        tdir, tname = jp
-        ok = m.tmpdir is not None and chain(tdir) is not None and chain(tdir).startswith("self.") and same(resolve_local(fi.node, m.tmpdir), tdir) \
-            and not stores_to(fi.node, chain(tdir))
+        ctx.ob("the file renamed onto the target is the temp file that was written", same(deep_resolve(fi.node, src), m.tmpname) or same(src, m.tmpname), fi, r)
+        tdir, tname = _target_parts(ctx, fi, dst)
+        tdir_r = full_resolve(ctx.prog, fi, tdir)
+        ok = m.tmpdir is not None and chain(tdir_r) is not None and chain(tdir_r).startswith("self.") and same(full_resolve(ctx.prog, fi, m.tmpdir), tdir_r) \
+            and not stores_to(fi.node, chain(tdir_r))
         ctx.ob("the temp file is created in the directory of the target (same file system, so the rename is atomic)", ok, fi, create,
                detail="temp dir %s, target dir %s" % (stmt_text(m.tmpdir) if m.tmpdir is not None else "(default temp dir)", stmt_text(tdir)))
         ok = after_normal(cfg, W_, rn)
         ctx.ob("the data is written before the rename", ok, fi, r, detail=None if ok else "path: %s" % witness(cfg, cfg.entry, rn, cut_normal=W_))
         if need_flush:
-            for c_, _ in m.writes:
-                wn = cfg.loc1(c_)
+            for c_, wn in [(c_, wn) for c_, _ in m.writes for wn in cfg.locate(c_)]:
                 ok = bool(FL) and must_complete(cfg, wn, FL, to=rn)
                 ctx.ob("every write is flushed before the rename", ok, fi, c_, detail=None if ok else "path: %s" % witness(cfg, wn, rn, cut_normal=FL))
         pre = FL if need_flush else W_
@@ -451,23 +521,25 @@ def c(ctx):
                    detail=None if ok else "path: %s" % witness(cfg, n, rn, cut_normal=FS))
         closed_by_with = [w for w in m.withs if not _inside(m, r, w)]
         syncs = m.fsyncs or [c_ for c_, _ in m.writes]
-        for s in syncs:
-            sn = cfg.loc1(s)
+        for s, sn in [(s, sn) for s in syncs for sn in cfg.locate(s)]:
             ok = any(_inside(m, s, w) for w in closed_by_with) or (bool(CL) and must_complete(cfg, sn, CL, to=rn))
             ctx.ob("the temp file is closed between fsync and the rename", ok, fi, r,
                    detail=None if ok else "the rename happens while the file may still be open (path: %s)" % witness(cfg, sn, rn, cut_normal=CL))
         for s in m.fsyncs:
-            late = [c_ for c_, _ in m.writes if cfg.loc1(c_) in reach_cut(cfg, {cfg.loc1(s)}, cut_normal=FS, include_src=False) and rn in cfg.reach({cfg.loc1(c_)})
-                    and not must_complete(cfg, cfg.loc1(c_), FS, to=rn)]
+            late = [c_ for c_, _ in m.writes for wn in cfg.locate(c_) if wn in reach_cut(cfg, locs([s]), cut_normal=FS, include_src=False) and rn in cfg.reach({wn})
+                    and not must_complete(cfg, wn, FS, to=rn)]
             ctx.ob("nothing is written between the last fsync and the rename", not late, fi, late[0] if late else s)
     ok = must_complete(cfg, cfg.entry, RP)
     ctx.ob("every normal return of _store has replaced the file", ok, fi, m.renames[0], detail=None if ok else "path: %s" % witness(cfg, cfg.entry, cfg.exit, cut_normal=RP))
-    var, entries = _payload_dict(ctx, m)
-    ctx.need("next-to-send" in entries or any(True for k in entries), "persisted dict has no entries")
-    nts = entries.get("next-to-send", [])
-    ctx.ob("the persisted dict has a next-to-send entry", bool(nts), fi, m.writes[0][0])
-    for v, n in nts:
-        ctx.ob("the value written under next-to-send is sequence_number_persisted (the bound, not the counter)", chain(v) == PERS, fi, n, detail="value %s" % stmt_text(v),
+    entries = _payload(ctx, m)
+    ctx.need(bool(entries), "persisted dict has no entries")
+    missing = [dc for dc, path, dv in m.payload if "next-to-send" not in dv.entries]
+    ctx.ob("the persisted dict has a next-to-send entry (on every path)", not missing, fi, missing[0] if missing else m.writes[0][0],
+           construct=stmt_text(m.writes[0][0]))
+    for v, n in entries.get("next-to-send", []):
+        # every value the entry can take (both arms of a conditional expression) must be the bound
+        ok = all(chain(leaf) == PERS for leaf, _h in arms(v))
+        ctx.ob("the value written under next-to-send is sequence_number_persisted (the bound, not the counter)", ok, fi, n, detail="value %s" % stmt_text(v),
                construct="'next-to-send': %s" % stmt_text(v))
 
 
@@ -479,117 +551,163 @@ class _Load:
     pass
 
 
+def _is_json_load_of(fi, v, f):
+    """v is json.load(f) or json.loads(f.read())"""
+    if not isinstance(v, ast.Call) or not v.args:
+        return False
+    q = qual(fi, v.func)
+    a = v.args[0]
+    if q == "json.load":
+        return isinstance(a, ast.Name) and a.id == f
+    if q == "json.loads":
+        b = match("$f.read()", a)
+        return b is not None and isinstance(b["f"], ast.Name) and b["f"].id == f
+    return False
+
+
 def _load_model(ctx, target_name):
+    """The place where _load (with helpers called in tail position expanded) reads <dir>/<target_name>:
+    `with open(<path>) as f: x = json.load(f)` for every spelling of the path that path_parts resolves."""
     m = _Load()
-    m.fi = fi = ctx.prog.func(FSC + "._load")
-    m.cfg = cfg = cfg_of(fi)
+    m.fi = fi = _fn(ctx, FSC + "._load")
+    m.cfg = cfg_of(fi)
     m.var = None
     m.with_ = None
     m.dir = None
+    m.open_call = None
+    m.opens = []
+    for c in calls_in(fi.node):
+        if qual(fi, c.func) in ("open", "io.open") and c.args:
+            jp = path_parts(ctx.prog, fi, c.args[0])
+            if jp is not None and jp[1] == target_name:
+                m.opens.append(c)
+    if not m.opens:
+        left = unexpanded_helper_calls(ctx.prog, fi)
+        ctx.need(not left, "_load delegates to %s, which cannot be expanded in place; the part that reads %s may live there"
+                 % (", ".join(sorted({stmt_text(c.func, 40) for c in left})), target_name))
     for w in walk_no_nested(fi.node):
         if not isinstance(w, ast.With):
             continue
         for it in w.items:
             ce = it.context_expr
-            if isinstance(ce, ast.Call) and chain(ce.func) in ("open", "io.open") and ce.args:
-                jp = _join_parts(resolve_local(fi.node, ce.args[0]))
-                if jp is not None and jp[1] == target_name and isinstance(it.optional_vars, ast.Name):
-                    f = it.optional_vars.id
-                    for n in walk_no_nested(w):
-                        if isinstance(n, ast.Assign) and len(n.targets) == 1 and isinstance(n.targets[0], ast.Name):
-                            b = match("json.load($f)", n.value)
-                            if b is not None and isinstance(b["f"], ast.Name) and b["f"].id == f:
-                                m.var, m.with_, m.dir = n.targets[0].id, w, jp[0]
+            if any(ce is o for o in m.opens) and isinstance(it.optional_vars, ast.Name):
+                f = it.optional_vars.id
+                for n in walk_no_nested(w):
+                    if isinstance(n, ast.Assign) and len(n.targets) == 1 and isinstance(n.targets[0], ast.Name) and _is_json_load_of(fi, n.value, f):
+                        m.var, m.with_, m.open_call = n.targets[0].id, w, ce
+                        m.dir = path_parts(ctx.prog, fi, ce.args[0])[0]
     return m
 
 
-def _reader_keys(m):
+def _reader_keys(ctx, m):
     keys = {}
-    for n in walk_no_nested(m.fi.node):
-        if isinstance(n, ast.Subscript) and isinstance(n.value, ast.Name) and n.value.id == m.var:
-            k = n.slice.value if isinstance(n.slice, ast.Constant) and isinstance(n.slice.value, str) else None
-            keys.setdefault(k, []).append(n)
-        elif isinstance(n, ast.Call) and isinstance(n.func, ast.Attribute) and n.func.attr in ("get", "pop") and isinstance(n.func.value, ast.Name) and n.func.value.id == m.var and n.args:
-            k = n.args[0].value if isinstance(n.args[0], ast.Constant) and isinstance(n.args[0].value, str) else None
-            keys.setdefault(k, []).append(n)
+    for k, n in key_reads_in(m.fi.node, m.var, _cs(ctx, m.fi)):
+        keys.setdefault(k, []).append(n)
     return keys
 
 
 def _writer_side(ctx):
     sm = _store_model(ctx)
     ctx.floor("rename calls in _store", len(sm.renames), 1)
-    jp = _join_parts(resolve_local(sm.fi.node, sm.renames[0].args[1]))
-    ctx.need(jp is not None, "the rename target is not os.path.join(<dir>, <constant>)")
-    var, entries = _payload_dict(ctx, sm)
+    jp = _target_parts(ctx, sm.fi, sm.renames[0].args[1])
+    entries = _payload(ctx, sm)
     return sm, jp, entries
+
+
+def _is_persist(v):
+    return isinstance(v, ast.Call) and isinstance(v.func, ast.Attribute) and v.func.attr == "persist" and not v.args and not v.keywords
+
+
+def _window_keys(entries):
+    """keys of the persisted dict under which (on some path, in some arm) a window's persist() output is stored"""
+    return sorted(k for k, vs in entries.items() if any(_is_persist(leaf) for v, _ in vs for leaf, _h in arms(v)))
+
+
+def _strip_int(v):
+    if isinstance(v, ast.Call) and isinstance(v.func, ast.Name) and v.func.id == "int" and len(v.args) == 1 and not v.keywords:
+        return v.args[0]
+    return v
 
 
 @R.clause("C13.d", "file name, JSON keys and window fields agree between the writers (_store, persist) and the readers (_load, initialize_from_persisted)")
 def d(ctx):
     sm, (tdir, tname), entries = _writer_side(ctx)
     lm = _load_model(ctx, tname)
-    ctx.ob("_load reads the file _store renames onto (%s)" % tname, lm.var is not None, sm.fi, sm.renames[0], detail="no `with open(os.path.join(..., %r)) as f: x = json.load(f)` in _load" % tname)
+    ctx.ob("_load reads the file _store renames onto (%s)" % tname, lm.var is not None, sm.fi, sm.renames[0], detail="no `with open(<dir>/%s) as f: x = json.load(f)` in _load" % tname)
     if lm.var is None:
         return
-    ctx.ob("reader and writer use the same directory", same(tdir, lm.dir), lm.fi, lm.with_.items[0].context_expr, detail="writer %s, reader %s" % (stmt_text(tdir), stmt_text(lm.dir)))
-    ctx.need(len(writes_to_name(lm.fi.node, lm.var)) == 1, "the loaded object is rebound in _load")
-    rkeys = _reader_keys(lm)
+    lf = lm.fi
+    ctx.ob("reader and writer use the same directory", same(full_resolve(ctx.prog, sm.fi, tdir), full_resolve(ctx.prog, lf, lm.dir)), lf, lm.open_call,
+           detail="writer %s, reader %s" % (stmt_text(tdir), stmt_text(lm.dir)))
+    ctx.need(len(writes_to_name(lf.node, lm.var)) == 1, "the loaded object is rebound in _load")
+    rkeys = _reader_keys(ctx, lm)
     ctx.need(None not in rkeys, "_load reads the persisted object with a non-constant key")
     wk, rk = set(entries), set(rkeys)
     for k in sorted(wk | rk):
         if k in wk and k in rk:
-            ctx.ob("key %r is written by _store and read by _load" % k, True, lm.fi, rkeys[k][0])
+            ctx.ob("key %r is written by _store and read by _load" % k, True, lf, rkeys[k][0])
         elif k in rk:
-            ctx.ob("every key _load reads is written by _store", False, lm.fi, rkeys[k][0], detail="key %r is never written (written: %s)" % (k, sorted(wk)))
+            ctx.ob("every key _load reads is written by _store", False, lf, rkeys[k][0], detail="key %r is never written (written: %s)" % (k, sorted(wk)))
         else:
             ctx.ob("every key _store writes is read by _load", False, sm.fi, entries[k][0][1], detail="key %r is never read (read: %s)" % (k, sorted(rk)),
                    construct="%r: %s" % (k, stmt_text(entries[k][0][0])))
     ctx.floor("keys of sequence.json", len(wk), 2)
     # the counter: next-to-send -> sender_sequence_number
-    sst = [n for kind, n in stores_to(lm.fi.node, SEQ, nested=False) if isinstance(n, ast.Assign)]
     fromfile = []
-    for n in sst:
-        subs = [x for x in ast.walk(n.value) if isinstance(x, ast.Subscript) and isinstance(x.value, ast.Name) and x.value.id == lm.var]
-        if subs:
-            fromfile.append((n, subs))
+    for ch, v, n in field_assigns(lf.node):
+        if ch != SEQ or v is None:
+            continue
+        rv = deep_resolve(lf.node, v, keep={lm.var})
+        reads = key_reads_in(rv, lm.var, _cs(ctx, lf))
+        if reads:
+            fromfile.append((n, rv, reads))
     ctx.floor("assignments of sender_sequence_number from the file in _load", len(fromfile), 1)
-    for n, subs in fromfile:
-        k = subs[0].slice.value if isinstance(subs[0].slice, ast.Constant) else None
-        ok = k == "next-to-send" and (same(n.value, subs[0]) or match("int($x)", n.value) is not None and same(n.value.args[0], subs[0]))
-        ctx.ob("the counter is restored from next-to-send, unchanged", ok, lm.fi, n)
+    for n, rv, reads in fromfile:
+        # unchanged: the entry itself or int(entry)
+        ok = is_verbatim_read(_strip_int(rv), lm.var, "next-to-send", _cs(ctx, lf))
+        ctx.ob("the counter is restored from next-to-send, unchanged", ok, lf, n)
     # the window: key under which persist() is stored == key handed to initialize_from_persisted
-    wkeys = sorted(k for k, vs in entries.items() if any(isinstance(v, ast.Call) and isinstance(v.func, ast.Attribute) and v.func.attr == "persist" for v, _ in vs))
+    wkeys = _window_keys(entries)
     ctx.need(len(wkeys) == 1, "persist() output is stored under %d keys" % len(wkeys))
-    ifp = mcalls(lm.fi.node, "initialize_from_persisted")
+    ifp = mcalls(lf.node, "initialize_from_persisted")
     ctx.floor("initialize_from_persisted calls in _load", len(ifp), 1)
     for c_ in ifp:
-        a0 = resolve_local(lm.fi.node, c_.args[0]) if c_.args else None
-        k = a0.slice.value if isinstance(a0, ast.Subscript) and isinstance(a0.value, ast.Name) and a0.value.id == lm.var and isinstance(a0.slice, ast.Constant) else None
-        ctx.ob("the window is restored from the entry persist() was stored under", k == wkeys[0], lm.fi, c_, detail="written under %r, read from %r" % (wkeys[0], k))
-        ctx.ob("the window restored is the context's recipient_replay_window (the one persisted)", chain(c_.func.value) == "self.recipient_replay_window", lm.fi, c_)
+        a0 = deep_resolve(lf.node, c_.args[0], keep={lm.var}) if c_.args else None
+        r = key_read(a0, lm.var, _cs(ctx, lf)) if a0 is not None else None
+        k = r[0] if r is not None else None
+        ctx.ob("the window is restored from the entry persist() was stored under", k == wkeys[0] and is_verbatim_read(a0, lm.var, k, _cs(ctx, lf)), lf, c_, detail="written under %r, read from %r" % (wkeys[0], k))
+        ctx.ob("the window restored is the context's recipient_replay_window (the one persisted)", recv_is(lf.node, c_.func.value, WINDOW), lf, c_)
     for k, vs in entries.items():
         for v, n in vs:
-            if isinstance(v, ast.Call) and isinstance(v.func, ast.Attribute) and v.func.attr == "persist":
-                ctx.ob("the window persisted is the context's recipient_replay_window", chain(v.func.value) == "self.recipient_replay_window", sm.fi, n)
+            for leaf, _h in arms(v):
+                if _is_persist(leaf):
+                    ctx.ob("the window persisted is the context's recipient_replay_window", recv_is(sm.fi.node, leaf.func.value, WINDOW), sm.fi, n)
     # ReplayWindow.persist <-> initialize_from_persisted
     pf = ctx.prog.func("oscore.ReplayWindow.persist")
+    pcfg = cfg_of(pf)
     rets = [n for n in walk_no_nested(pf.node) if isinstance(n, ast.Return)]
-    ctx.need(len(rets) == 1 and isinstance(resolve_local(pf.node, rets[0].value), ast.Dict), "ReplayWindow.persist does not return one dict literal")
-    dct = resolve_local(pf.node, rets[0].value)
+    ctx.need(len(rets) >= 1 and all(r_.value is not None for r_ in rets), "ReplayWindow.persist does not return a value")
+    pds = DictStates(pf, const=_cs(ctx, pf))
     wmap = {}
-    for k, v in zip(dct.keys, dct.values):
-        ctx.need(isinstance(k, ast.Constant) and isinstance(k.value, str), "non-constant key in ReplayWindow.persist")
-        wmap[k.value] = chain(v)
+    for r_ in rets:
+        for path, dv in pds.at(pcfg.loc1(r_), r_.value):
+            ctx.need(isinstance(dv, DictVal) and dv.opaque is None, "ReplayWindow.persist does not return a dict with constant keys the rule can follow")
+            for k, (v, n) in dv.entries.items():
+                wmap.setdefault(k, set()).add(chain(v))
+            for k in set(wmap) - set(dv.entries):
+                wmap[k].add(None)
+    wmap = {k: (next(iter(vs)) if len(vs) == 1 else None) for k, vs in wmap.items()}
     rf = ctx.prog.func("oscore.ReplayWindow.initialize_from_persisted")
     rp = params(rf)
     ctx.need(len(rp) == 1, "initialize_from_persisted signature changed")
     rmap = {}
-    for n, bnd in find("self.$f = $v", rf.node):
-        v = bnd["v"]
-        if isinstance(v, ast.Call) and chain(v.func) == "int" and len(v.args) == 1:
-            v = v.args[0]
-        if isinstance(v, ast.Subscript) and isinstance(v.value, ast.Name) and v.value.id == rp[0] and isinstance(v.slice, ast.Constant):
-            rmap[v.slice.value] = "self." + bnd["f"]
+    for ch, v, n in field_assigns(rf.node):
+        if v is None:
+            continue
+        rv = _strip_int(deep_resolve(rf.node, v, keep={rp[0]}))
+        r = key_read(rv, rp[0], _cs(ctx, rf))
+        if r is not None and r[0] is not None:
+            rmap[r[0]] = ch
     ctx.floor("fields restored by initialize_from_persisted", len(rmap), 2)
     for k in sorted(set(wmap) | set(rmap)):
         ctx.ob("window entry %r is written from and restored into the same field" % k, wmap.get(k) == rmap.get(k) and wmap.get(k) is not None, rf if k in rmap else pf, rf.node if k in rmap else pf.node,
@@ -597,39 +715,131 @@ def d(ctx):
     ctx.ob("the persisted window consists of index and bitfield", set(wmap.values()) == {"self._index", "self._bitfield"}, pf, rets[0], detail="fields %s" % sorted(map(str, wmap.values())))
 
 
+def _marker_tests(ctx, lm, wkey):
+    """(outcomes on which the window entry equals a string constant, outcomes on which it differs): T/F pseudo-nodes of
+    tests `<entry> == "c"`, `"c" == <entry>`, `!=`, `<entry> in ("c",)`, `not in`, where <entry> is a read of `wkey` from
+    the loaded object, directly or through locals, and "c" is a string literal or a module/class constant naming one."""
+    lf, lcfg = lm.fi, lm.cfg
+    unkT, unkF = [], []
+    for n in lcfg.nodes:
+        if n.kind not in ("T", "F") or n.ast is None or not isinstance(n.ast, ast.Compare) or len(n.ast.ops) != 1:
+            continue
+        op, l, r = n.ast.ops[0], n.ast.left, n.ast.comparators[0]
+        cs = lambda x: const_str(ctx.prog, lf, x)
+        if isinstance(op, (ast.Eq, ast.NotEq)):
+            cst = [cs(x) for x in (l, r) if cs(x) is not None]
+            oth = [x for x in (l, r) if cs(x) is None]
+            positive = isinstance(op, ast.Eq)
+        elif isinstance(op, (ast.In, ast.NotIn)) and isinstance(r, (ast.Tuple, ast.List, ast.Set)) and len(r.elts) == 1:
+            cst = [cs(x) for x in r.elts if cs(x) is not None]
+            oth = [l]
+            positive = isinstance(op, ast.In)
+        else:
+            continue
+        if len(cst) != 1 or len(oth) != 1:
+            continue
+        src = deep_resolve(lf.node, oth[0], keep={lm.var})
+        rd = key_read(src, lm.var, _cs(ctx, lf))
+        if rd is not None and rd[0] == wkey:
+            is_eq = positive == (n.kind == "T")
+            (unkT if is_eq else unkF).append((n, cst[0]))
+    return unkT, unkF
+
+
+def _nofile_handlers(lm, broad=False):
+    """handler nodes that a failing open() of the state file reaches, by exception class"""
+    lcfg = lm.cfg
+    on = lcfg.loc1(lm.open_call)
+    accepted = ("FileNotFoundError", "OSError", "IOError") if broad else ("FileNotFoundError",)
+    out = []
+    for d_, lab in lcfg.succ[on]:
+        if lab != "exc" or lcfg.nodes[d_].kind != "handler":
+            continue
+        h = lcfg.nodes[d_].ast
+        if h.type is None:
+            continue
+        names = h.type.elts if isinstance(h.type, ast.Tuple) else [h.type]
+        if names and all(chain(x) in accepted for x in names):
+            out.append(d_)
+    return out
+
+
 @R.clause("C13.e", "'unknown' is written iff the flag is false; the strike-out callback clears the flag before storing; _load maps it back")
 def e(ctx):
     sm, (tdir, tname), entries = _writer_side(ctx)
     fi, cfg = sm.fi, sm.cfg
-    wkeys = sorted(k for k, vs in entries.items() if any(isinstance(v, ast.Call) and isinstance(v.func, ast.Attribute) and v.func.attr == "persist" for v, _ in vs))
+    wkeys = _window_keys(entries)
     ctx.need(len(wkeys) == 1, "persist() output is stored under %d keys" % len(wkeys))
+    wkey = wkeys[0]
+    # The flag is read, not changed, while the contents are put together: its value in a condition anywhere on the
+    # path is its value at the serialising statement.
+    ctx.need(not stores_to(fi.node, FLAG, nested=False), "_store changes replay_window_persisted while it builds the file contents")
+    pm = sm.ds.pm
+    flag_expr = ast.parse(FLAG, mode="eval").body
+    single = _single_values(fi.node)
+    # locals that name (a boolean function of) the flag: `known = self.replay_window_persisted`, `unknown = not self....`
+    flag_locals = {x: v for x, v in single.items() if any(isinstance(n_, ast.Attribute) and chain(n_) == FLAG for n_ in ast.walk(v))}
+
+    def flag_truth(path, hyps):
+        """truth of the flag on `path` under the arm conditions `hyps`, seeing through locals that stand for it"""
+        hyps = list(hyps)
+        for t, pol in list(hyps):
+            if isinstance(t, ast.Name) and t.id in flag_locals:
+                hyps.append((flag_locals[t.id], pol))
+        for x, v in flag_locals.items():
+            tv = pm.truth(ast.Name(id=x, ctx=ast.Load()), path)
+            if tv is not None:
+                hyps.append((v, tv))
+        return truth_under(pm, path, tuple(hyps), flag_expr)
+
     consts = set()
-    nconst = npersist = 0
-    for v, n in entries[wkeys[0]]:
-        ctx.need(not isinstance(n.value, ast.Dict) if isinstance(n, ast.Assign) else True, "the window entry is part of the dict literal; the rule expects guarded d[k] = v stores")
-        facts = facts_at(cfg, fi.node, cfg.loc1(n))
-        if isinstance(v, ast.Constant):
-            nconst += 1
-            consts.add(v.value)
-        else:
-            npersist += 1
-            ctx.ob("a real window is written only when replay_window_persisted is true (otherwise the file would keep a window that goes stale)", has_fact(facts, FLAG, True), fi, n)
-            ctx.ob("what is written then is the window's persist() output", isinstance(v, ast.Call) and isinstance(v.func, ast.Attribute) and v.func.attr == "persist", fi, n)
+    nconst = 0
+    judged = {}  # (statement, leaf) -> [statement, leaf, real-window-only-under-flag, path description of a counterexample]
+    unset = []
+    for dc, path, dv in sm.payload:
+        if wkey not in dv.entries:
+            unset.append((dc, path))
+            continue
+        v, n = dv.entries[wkey]
+        for leaf, hyps in arms(v):
+            if any(pm.truth(t, path) is (not pol) for t, pol in hyps):
+                continue  # this arm cannot be taken on this path
+            if isinstance(leaf, ast.Constant):
+                nconst += 1
+                consts.add(leaf.value)
+                continue
+            named = const_str(ctx.prog, fi, leaf)
+            if named is not None:  # the marker through a module / class constant
+                nconst += 1
+                consts.add(named)
+                continue
+            # `a and b or c` and similar value-selecting boolean operators are not split into arms
+            ctx.need(not isinstance(leaf, ast.BoolOp), "the window entry is selected by and/or (%s); the rule splits conditional expressions and if/else only" % stmt_text(leaf, 60))
+            flag = flag_truth(path, hyps)
+            rec = judged.setdefault((id(n), dump(leaf)), [n, leaf, True, None])
+            if flag is not True:
+                rec[2] = False
+                rec[3] = "%s%s" % (pm.describe(path), "".join("; %s is %s" % (stmt_text(t, 40), pol) for t, pol in hyps))
+    for n, leaf, ok, where in judged.values():
+        ctx.ob("a real window is written only when replay_window_persisted is true (otherwise the file would keep a window that goes stale)", ok, fi, n,
+               detail=None if ok else "written on the path: %s" % where)
+        ctx.ob("what is written then is the window's persist() output", _is_persist(leaf), fi, n)
     ctx.floor("marker stores in _store", nconst, 1)
     ctx.need(len(consts) <= 1, "several different markers are written")
     marker = consts.pop() if consts else None
     # every path to the write has set the entry
-    setters = {cfg.loc1(n) for _, n in entries[wkeys[0]]}
-    for c_, _ in sm.writes:
-        ctx.ob("the window entry is set on every path before the data is serialised", after_normal(cfg, setters, cfg.loc1(c_)), fi, c_)
+    for dc in {id(dc): dc for dc, _p, _d in sm.payload}.values():
+        bad = [p for x, p in unset if x is dc]
+        ctx.ob("the window entry is set on every path before the data is serialised", not bad, fi, dc,
+               detail=None if not bad else "not set on the path: %s" % pm.describe(bad[0]))
 
     # _replay_window_changed
-    rf = ctx.prog.func(FSC + "._replay_window_changed")
+    rf = _fn(ctx, FSC + "._replay_window_changed")
     rcfg = cfg_of(rf)
     ctx.need(is_plain_sync(rf), "_replay_window_changed is not a plain function")
     ctx.prog.func(FSC + "._store")
     stores = _self_calls(rf.node, "_store")
-    snodes = {rcfg.loc1(c_) for c_ in stores}
+    snodes = _locs(rcfg, stores)
     for k, n in stores_to(rf.node, FLAG, nested=False):
         nid = rcfg.loc1(n)
         ok = must_complete(rcfg, nid, snodes)
@@ -637,11 +847,11 @@ def e(ctx):
     paths = sym_paths(rf, {FLAG: "W"})
     normal = [q for q in paths if q.normal()]
     ctx.floor("normal paths of _replay_window_changed", len(normal), 1)
-    wkey = canon(("truth", "W"))
+    wkey_ = canon(("truth", "W"))
     for q in normal:
         sc = [t for t in q.calls() if t[1] in stores]
         nf = _path_nf(q)
-        already = (wkey[0], not wkey[1]) in nf and not q.stores(FLAG)
+        already = (wkey_[0], not wkey_[1]) in nf and not q.stores(FLAG)
         if not sc:
             conds = [t[1] for t in q.facts()]
             ctx.ob("the callback returns without storing only when the flag is already false (file already says unknown)", already, rf, conds[-1] if conds else rf.node,
@@ -657,38 +867,31 @@ def e(ctx):
     ctx.need(lm.var is not None, "_load does not read %s" % tname)
     lf, lcfg = lm.fi, lm.cfg
     ci, winit, sizech, cbfield = _window_fields(ctx)
-    wins = [n for k, n in stores_to(lf.node, "self.recipient_replay_window", nested=False) if k == "assign"]
+    wins = [(v, n) for ch, v, n in field_assigns(lf.node) if ch == WINDOW]
     ctx.floor("assignments of recipient_replay_window in _load", len(wins), 1)
     cbparam = params(winit)[1]
-    for w in wins:
-        v = w.value
+    for v, w in wins:
+        v = deep_resolve(lf.node, v) if v is not None else None
         cb = None
         if isinstance(v, ast.Call):
             cb = _kw(v, cbparam, 1)
-        ctx.ob("the window's strike-out callback is self._replay_window_changed", cb is not None and chain(cb) == "self._replay_window_changed", lf, w)
+        # the callback may be the bound method, or any callable that does nothing but call it (lambda, partial, local def)
+        ctx.ob("the window's strike-out callback is self._replay_window_changed", cb is not None and callable_target(lf, cb) == "self._replay_window_changed", lf, w)
     so = ctx.prog.func("oscore.ReplayWindow.strike_out")
-    ctx.ob("strike_out invokes the stored callback", any(chain(c_.func) == "self." + cbfield for c_ in calls_in(so.node)), so, so.node, construct="ReplayWindow.strike_out")
+    ctx.ob("strike_out invokes the stored callback", any(rchain(so.node, c_.func) == "self." + cbfield for c_ in calls_in(so.node)), so, so.node, construct="ReplayWindow.strike_out")
 
     # _load: marker -> flag false; dict -> initialize_from_persisted and flag true; missing file -> flag true
-    unkT, unkF = [], []
-    for n in lcfg.nodes:
-        if n.kind in ("T", "F") and n.ast is not None and isinstance(n.ast, ast.Compare) and len(n.ast.ops) == 1 and isinstance(n.ast.ops[0], (ast.Eq, ast.NotEq)):
-            l, r = n.ast.left, n.ast.comparators[0]
-            cst = [x for x in (l, r) if isinstance(x, ast.Constant) and isinstance(x.value, str)]
-            oth = [x for x in (l, r) if not isinstance(x, ast.Constant)]
-            if len(cst) == 1 and len(oth) == 1:
-                src = resolve_local(lf.node, oth[0])
-                if isinstance(src, ast.Subscript) and isinstance(src.value, ast.Name) and src.value.id == lm.var and isinstance(src.slice, ast.Constant) and src.slice.value == wkeys[0]:
-                    is_eq = isinstance(n.ast.ops[0], ast.Eq) == (n.kind == "T")
-                    (unkT if is_eq else unkF).append((n, cst[0].value))
+    unkT, unkF = _marker_tests(ctx, lm, wkey)
     ctx.floor("branches of _load comparing the window entry with the marker", len(unkT), 1)
     ctx.floor("branches of _load comparing the window entry with the marker", len(unkF), 1)
     fl = {True: set(), False: set()}
-    for k, n in stores_to(lf.node, FLAG, nested=False):
-        v = n.value if isinstance(n, ast.Assign) else None
+    for ch, v, n in field_assigns(lf.node):
+        if ch != FLAG:
+            continue
         ctx.need(isinstance(v, ast.Constant) and isinstance(v.value, bool), "_load sets replay_window_persisted to a non-constant")
-        fl[v.value].add(lcfg.loc1(n))
-    ifp = {lcfg.loc1(c_) for c_ in mcalls(lf.node, "initialize_from_persisted")}
+        fl[v.value] |= _locs(lcfg, [n])
+    ctx.need(len(fl[True]) + len(fl[False]) == len(stores_to(lf.node, FLAG, nested=False)), "_load changes replay_window_persisted other than by assignment")
+    ifp = _locs(lcfg, mcalls(lf.node, "initialize_from_persisted"))
     for n, val in unkT:
         ctx.ob("the marker _load recognises is the one _store writes", val == marker, lf, n.ast, detail="writer %r, reader %r" % (marker, val))
     for n, val in unkF:
@@ -697,16 +900,10 @@ def e(ctx):
         ok = bool(fl[True]) and must_complete(lcfg, n.id, fl[True]) and not (lcfg.reach({n.id}) & fl[False])
         ctx.ob("a restored window sets replay_window_persisted = True (the file holds a real window until the first strike-out)", ok, lf, n.ast)
     # missing file
-    handlers = []
-    for t in walk_no_nested(lf.node):
-        if isinstance(t, ast.Try) and any(x is lm.with_ for x in ast.walk(t)):
-            for h in t.handlers:
-                names = [h.type] if h.type is not None and not isinstance(h.type, ast.Tuple) else (h.type.elts if h.type is not None else [])
-                if any(chain(x) in ("FileNotFoundError", "OSError", "IOError") for x in names):
-                    handlers.append(h)
+    handlers = _nofile_handlers(lm, broad=True)
     ctx.floor("handlers for a missing sequence file in _load", len(handlers), 1)
-    for h in handlers:
-        hn = lcfg.loc1(h)
+    for hn in handlers:
+        h = lcfg.nodes[hn].ast
         ok = bool(fl[True]) and must_complete(lcfg, hn, fl[True]) and not (lcfg.reach({hn}) & fl[False])
         ctx.ob("with no sequence file the flag is true, so the first strike-out writes the marker", ok, lf, h, construct="except %s" % (stmt_text(h.type) if h.type is not None else ""))
     ctx.ob("every normal path of _load sets the flag", must_complete(lcfg, lcfg.entry, fl[True] | fl[False]), lf, lf.node, construct="_load")
@@ -714,19 +911,21 @@ def e(ctx):
 
 @R.clause("C13.f", "clean shutdown: _destroy sets flag and exact counter before _store, and stores before releasing the lock")
 def f(ctx):
-    fi = ctx.prog.func(FSC + "._destroy")
+    fi = _fn(ctx, FSC + "._destroy")
     cfg = cfg_of(fi)
     ctx.need(is_plain_sync(fi), "_destroy is not a plain function")
     ctx.prog.func(FSC + "._store")
     stores = _self_calls(fi.node, "_store")
-    snodes = {cfg.loc1(c_) for c_ in stores}
-    rel = [c_ for c_ in calls_in(fi.node) if (chain(c_.func) or "").startswith("self.lockfile.")]
-    rel += [c_ for c_ in calls_in(fi.node) if chain(c_.func) in ("os.unlink", "os.remove") and c_.args and (chain(c_.args[0]) or "").startswith("self.lockfile")]
+    snodes = _locs(cfg, stores)
+    # a release site is anything called on the lock object or unlinking its file, whether the lock is named
+    # self.lockfile or through a local taken from it
+    rel = [c_ for c_ in calls_in(fi.node) if (rchain(fi.node, c_.func) or "").startswith("self.lockfile.")]
+    rel += [c_ for c_ in calls_in(fi.node) if qual(fi, c_.func) in ("os.unlink", "os.remove") and c_.args and (rchain(fi.node, c_.args[0]) or "").startswith("self.lockfile")]
     ctx.floor("lock release sites in _destroy", len(rel), 1)
     for c_ in rel:
-        ctx.ob("the lock is released only after _store() completed", after_normal(cfg, snodes, cfg.loc1(c_)), fi, c_)
+        ctx.ob("the lock is released only after _store() completed", all(after_normal(cfg, snodes, x) for x in cfg.locate(c_) if cfg.is_reachable(x)) and bool(cfg.locate(c_)), fi, c_)
     for k, n in stores_to(fi.node, "self.lockfile", nested=False):
-        ctx.ob("the lock is dropped only after _store() completed", after_normal(cfg, snodes, cfg.loc1(n)), fi, n)
+        ctx.ob("the lock is dropped only after _store() completed", all(after_normal(cfg, snodes, x) for x in cfg.locate(n) if cfg.is_reachable(x)) and bool(cfg.locate(n)), fi, n)
     paths = sym_paths(fi, {FLAG: "W", PERS: "P", SEQ: "q"})
     normal = [q for q in paths if q.normal()]
     ctx.floor("normal paths of _destroy", len(normal), 1)
@@ -751,18 +950,29 @@ def g_load_window(ctx):
     seen before the crash was then accepted again.  Necessary condition: in _load the only initialiser reachable
     after sequence.json has been read is initialize_from_persisted(<the file's entry>); initialize_empty (and any
     direct store to the window's fields) is confined to the path on which opening the file failed with
-    FileNotFoundError."""
-    fi = ctx.prog.func("oscore.FilesystemSecurityContext._load")
-    cfg = cfg_of(fi)
-    opens = [c for c in calls_in(fi.node) if call_name(c) == "open" and any(isinstance(x, ast.Constant) and x.value == "sequence.json" for x in ast.walk(c))]
-    ctx.ob("_load opens sequence.json", len(opens) == 1, fi, opens[0] if opens else fi.node, construct="_load: open(sequence.json)")
+    FileNotFoundError.
+
+    The state file is the one _store renames onto (any spelling of the path: literal join, local, property); _load is
+    looked at with helper methods it calls in tail position expanded, so the reading part may live in a helper."""
+    try:
+        _sm, (_tdir, tname), _entries = _writer_side(ctx)
+    except AnalysisError:
+        tname = "sequence.json"  # the writer is outside the rule's vocabulary (reported by C13.c/d): fall back to the documented name
+    lm = _load_model(ctx, tname)
+    fi, cfg = lm.fi, lm.cfg
+    opens = lm.opens
+    ctx.ob("_load opens %s" % tname, len(opens) == 1, fi, opens[0] if opens else fi.node, construct="_load: open(%s)" % tname)
     if len(opens) != 1:
         return
-    on = cfg.loc1(opens[0])
-    hnodes = [d for d, lab in cfg.succ[on] if lab == "exc" and cfg.nodes[d].kind == "handler"]
-    nofile = [h for h in hnodes if cfg.nodes[h].ast.type is not None and chain(cfg.nodes[h].ast.type) in ("FileNotFoundError",)]
+    lm.open_call = opens[0]
+    nofile = _nofile_handlers(lm)
     ctx.ob("a missing state file is handled separately (FileNotFoundError)", len(nofile) == 1, fi, opens[0])
     inits = [c for c in calls_in(fi.node) if isinstance(c.func, ast.Attribute) and c.func.attr in ("initialize_empty", "initialize_from_freshlyseen", "initialize_from_persisted")]
+    # method values taken without a call (partial(window.initialize_empty), cb = window.initialize_empty) are outside the vocabulary
+    called = {id(c.func) for c in inits}
+    refs = [n for n in walk_no_nested(fi.node) if isinstance(n, ast.Attribute) and n.attr in ("initialize_empty", "initialize_from_freshlyseen", "initialize_from_persisted")
+            and id(n) not in called]
+    ctx.need(not refs, "_load takes a window initialiser as a value instead of calling it")
     ctx.floor("window initialisers in _load", len(inits), 2)
     for c in inits:
         nid = cfg.loc1(c)
@@ -773,7 +983,7 @@ def g_load_window(ctx):
             ctx.ob("the persisted window is restored only from a file that was read", not in_nofile and not any(nid in cfg.reach({h}) for h in nofile), fi, c)
         else:
             ctx.ob("_load never marks a number as freshly seen", False, fi, c)
-    direct = [n for n in walk_no_nested(fi.node) if isinstance(n, (ast.Assign, ast.AugAssign)) and any(isinstance(t, ast.Attribute) and t.attr in ("_index", "_bitfield") for t in (n.targets if isinstance(n, ast.Assign) else [n.target]))]
+    direct = [n for ch, v, n in field_assigns(fi.node) if ch.rsplit(".", 1)[-1] in ("_index", "_bitfield")]
     ctx.ob("_load does not write the window's fields directly", not direct, fi, direct[0] if direct else fi.node, construct=stmt_text(direct[0]) if direct else "_load: direct window stores")
 
 
@@ -797,13 +1007,21 @@ def i_shared(ctx):
 def j_verbatim(ctx):
     """Added after an independently written breaking change coerced the persisted fields with `int(... or 0)`: the
     all-null window a clean stop writes for a context still waiting for its Echo exchange came back as an initialised,
-    empty window and every pre-crash request was accepted again."""
+    empty window and every pre-crash request was accepted again.
+
+    Accepted as "verbatim": persisted[key], persisted.get(key) / .get(key, None) (an absent key gives None, i.e. an
+    uninitialised window, which triggers Echo recovery -- the safe side), directly, through single-assignment locals, or
+    in the parallel form `self._index, self._bitfield = persisted["index"], persisted["bitfield"]`."""
     fi = ctx.prog.func("oscore.ReplayWindow.initialize_from_persisted")
     p = params(fi)[0]
+    ctx.need(not writes_to_name(fi.node, p), "initialize_from_persisted rebinds its parameter")
+    fas = field_assigns(fi.node)
     for attr, key in (("_index", "index"), ("_bitfield", "bitfield")):
-        st = [n for n in walk_no_nested(fi.node) if isinstance(n, ast.Assign) and any(chain(t) == "self." + attr for t in n.targets)]
-        ok = len(st) == 1 and match("%s[%r]" % (p, key), st[0].value) is not None
-        ctx.ob("%s is restored exactly as persisted under %r" % (attr, key), ok, fi, st[0] if st else fi.node, construct=stmt_text(st[0]) if st else "initialize_from_persisted: %s" % attr)
+        st = [(v, n) for ch, v, n in fas if ch == "self." + attr]
+        ok = len(st) == 1 and st[0][0] is not None and is_verbatim_read(deep_resolve(fi.node, st[0][0], keep={p}), p, key, _cs(ctx, fi))
+        other = [n for k, n in stores_to(fi.node, "self." + attr, nested=False) if not any(n is s[1] for s in st)]
+        ok = ok and not other
+        ctx.ob("%s is restored exactly as persisted under %r" % (attr, key), ok, fi, st[0][1] if st else fi.node, construct=stmt_text(st[0][1]) if st else "initialize_from_persisted: %s" % attr)
 
 
 F_ = "aiocoap/oscore.py"
@@ -869,3 +1087,73 @@ R.seed("C13.h", F_, "        self._index = seen\n        self._bitfield = 1\n", 
 R.seed("C13.i", F_, "partial_iv.lstrip(b\"\\0\")", "partial_iv.strip(b\"\\0\")", "trailing zero bytes stripped too: 256 gets the partial IV of 1")
 
 R.seed("C13.j", F_, "        self._index = persisted[\"index\"]\n        self._bitfield = persisted[\"bitfield\"]\n", "        self._index = int(persisted[\"index\"] or 0)\n        self._bitfield = int(persisted[\"bitfield\"] or 0)\n", "null window (clean stop while waiting for Echo) restored as an empty initialised window")
+
+# seeds for the generalised forms: the same faults, spelled the way the refactorings spell the code
+_LOAD_TAIL_OLD = (
+    '        try:\n'
+    '            with open(os.path.join(self.basedir, "sequence.json")) as f:\n'
+    '                sequence = json.load(f)\n'
+    '        except FileNotFoundError:\n'
+    '            self.sender_sequence_number = 0\n'
+    '            self.recipient_replay_window.initialize_empty()\n'
+    '            self.replay_window_persisted = True\n'
+    '        else:\n'
+    '            self.sender_sequence_number = int(sequence["next-to-send"])\n'
+    '            received = sequence["received"]\n'
+    '            if received == "unknown":\n'
+    '                # The replay window will stay uninitialized, which triggers\n'
+    '                # Echo recovery\n'
+    '                self.replay_window_persisted = False\n'
+    '            else:\n'
+    '                try:\n'
+    '                    self.recipient_replay_window.initialize_from_persisted(received)\n'
+    '                except (ValueError, TypeError, KeyError):\n'
+    '                    # Not being particularly careful about what could go wrong: If\n'
+    "                    # someone tampers with the replay data, we're already in *big*\n"
+    '                    # trouble, of which I fail to see how it would become worse\n'
+    '                    # than a crash inside the application around "failure to\n'
+    '                    # right-shift a string" or that like; at worst it\'d result in\n'
+    '                    # nonce reuse which tampering with the replay window file\n'
+    '                    # already does.\n'
+    '                    raise self.LoadError(\n'
+    '                        "Persisted replay window state was not understood"\n'
+    '                    )\n'
+    '                self.replay_window_persisted = True\n'
+    '\n'
+)
+_LOAD_TAIL_NEW = (
+    '        self._load_sequence()\n'
+    '\n'
+    '    def _load_sequence(self):\n'
+    '        try:\n'
+    '            with open(os.path.join(self.basedir, "sequence.json")) as f:\n'
+    '                sequence = json.load(f)\n'
+    '        except FileNotFoundError:\n'
+    '            self.sender_sequence_number = 0\n'
+    '            self.recipient_replay_window.initialize_empty()\n'
+    '            self.replay_window_persisted = True\n'
+    '            return\n'
+    '        self.sender_sequence_number = int(sequence["next-to-send"])\n'
+    '        received = sequence["received"]\n'
+    '        if received == "unknown":\n'
+    '            self.recipient_replay_window.initialize_empty()\n'
+    '            self.replay_window_persisted = False\n'
+    '            return\n'
+    '        try:\n'
+    '            self.recipient_replay_window.initialize_from_persisted(received)\n'
+    '        except (ValueError, TypeError, KeyError):\n'
+    '            raise self.LoadError("Persisted replay window state was not understood")\n'
+    '        self.replay_window_persisted = True\n'
+    '\n'
+)
+R.seed("C13.g", F_, _LOAD_TAIL_OLD, _LOAD_TAIL_NEW, "reading part of _load moved into a helper called last (returns inside try), and the helper assumes an empty window for 'unknown'")
+_STORE_IF = "        if not self.replay_window_persisted:\n            data[\"received\"] = \"unknown\"\n        else:\n            data[\"received\"] = self.recipient_replay_window.persist()\n"
+R.seed("C13.e", F_, _STORE_IF, "        data[\"received\"] = \"unknown\" if self.replay_window_persisted else self.recipient_replay_window.persist()\n", "conditional expression with the arms swapped")
+R.seed("C13.e", F_, "        data = {\"next-to-send\": self.sequence_number_persisted}\n" + _STORE_IF,
+       "        data = {\"next-to-send\": self.sequence_number_persisted, \"received\": \"unknown\"}\n        data[\"received\"] = self.recipient_replay_window.persist()\n", "marker as default, overwritten unconditionally by the real window")
+R.seed("C13.c", F_, "        data = {\"next-to-send\": self.sequence_number_persisted}\n" + _STORE_IF + "\n",
+       "        data = dict([(\"next-to-send\", self.sender_sequence_number)], received=self.recipient_replay_window.persist() if self.replay_window_persisted else \"unknown\")\n\n", "dict(...) spelling of the payload with the counter instead of the bound")
+R.seed("C13.d", F_, "        return {\"index\": self._index, \"bitfield\": self._bitfield}", "        return dict(index=self._bitfield, bitfield=self._index)", "fields swapped in persist, dict(k=v) spelling")
+R.seed("C13.j", F_, "        self._index = persisted[\"index\"]\n        self._bitfield = persisted[\"bitfield\"]\n", "        self._index, self._bitfield = persisted[\"index\"] or 0, persisted[\"bitfield\"] or 0\n", "parallel assignment that coerces null to 0")
+R.seed("C13.f", F_, "        self._store()\n\n        del self.sender_key\n        del self.recipient_key\n\n        os.unlink(self.lockfile.lock_file)\n        self.lockfile.release()\n\n        self.lockfile = None\n",
+       "        del self.sender_key\n        del self.recipient_key\n\n        lock = self.lockfile\n        self.lockfile = None\n        os.unlink(lock.lock_file)\n        lock.release()\n        self._store()\n", "lock released through a local alias before the final store")
